@@ -162,6 +162,28 @@ def save (c : Cfg) (s : State) : State :=
 def restart (c : Cfg) (s : State) : Option State :=
   start c s.base s.tankan s.hasDir s.saved
 
+/-! ### histories: any interleaving of atomic steps of clients and background tasks -/
+
+/-- One atomic step of the server: a client request (one critical section each) or a background step. -/
+inductive Op
+  | convert (ctx : Ctx) (input : Str)
+  | confirm (sid : Nat) (cid : Option Nat) (now : Int)
+  | register (k : RegKind) (reading word : Str)
+  /-- the updater task takes one entry from the channel -/
+  | apply
+  /-- the periodic save completes -/
+  | save
+
+/-- A request that fails (guesser panic / refused entry / updater panic) leaves the state as it was. -/
+def stepOp (c : Cfg) (s : State) : Op → State
+  | .convert ctx input => match convert c s ctx input with | some (s', _, _) => s' | none => s
+  | .confirm sid cid now => confirm c s sid cid now
+  | .register k r w => (register c s k r w).getD s
+  | .apply => (applyEntry c s).getD s
+  | .save => save c s
+
+def runOps (c : Cfg) (s : State) (ops : List Op) : State := ops.foldl (stepOp c) s
+
 /-! ### M9: the dictionary builder (chokan-dic) -/
 
 def ltStr : Str → Str → Bool
